@@ -178,6 +178,17 @@ fn build_cases(tier: Tier) -> Vec<(String, Vec<Case>)> {
         g.push(case(&["view", "-M", m], &sp2, "marginalize-values", format!("view -M {m} on shape [3,4]")));
         g.push(case(&["view", "-m", m], &sp1, "marginalize-values", format!("view -m {m} on shape [5]")));
     }
+    // every axis list of length 1..4 over axes 0..=d (repeats anywhere in the list, out-of-range
+    // entries, all axes) on a 4-axis and a 3-axis spectrum, as -m and as -M
+    for sh in [vec![2usize, 2, 2, 3], vec![2, 3, 2]] {
+        let input = spectrum_text(&sh);
+        let d = sh.len();
+        for l in sequences(d + 1, 1, 4) {
+            let m = l.iter().map(|a| a.to_string()).collect::<Vec<_>>().join(",");
+            g.push(case(&["view", "-m", &m], &input, "marginalize-lists", format!("view -m {m} on shape {sh:?}")));
+            g.push(case(&["view", "-M", &m], &input, "marginalize-lists", format!("view -M {m} on shape {sh:?}")));
+        }
+    }
     for t in ["1", "16", "4096", "0", "18446744073709551615"] {
         g.push(case(&["create", "--threads", t], &vcf, "threads", format!("create --threads {t}")));
         let gz = Arc::new(render(&small_callset(), Container::Bcf, &Layout::Fixed(64)));
